@@ -7,7 +7,7 @@ PROP = dict(
     thorough_seeds=2,
     level_text='Identity of the shared instance is a theorem about the factory machine (Ioc.M2): for every scenario - every dependency graph, candidate order and substituting post-processor - every object stored in any field after a successful start is the one published in the singleton cache (invariant over all steps, lifted by induction over run). The machine, composed with the tag and matching models, is compared with the real App.Run on thousands of generated graphs per run (pointer identity read back by reflection).',
     level_note="Modelled, not verified: reflect, sync.Map order (imposed), sort.Slice, third-party callbacks as flags/functions. The graph sub-harness is shared with other properties: only this property's oracles and its projection of the observation are compared here.",
-    rule='graphs over the fixed type universe (cycles of length 1-5 and their rotations, diamonds, slice fan-in, by-name/by-type/qualified edges, self candidates, substituted components, faults), each under one imposed enumeration order; non-trivial = at least one component registered; distinct = distinct scenario lines',
+    rule='graphs over the fixed type universe (cycles of length 1-5 and their rotations, diamonds, slice fan-in, by-name/by-type/qualified edges, self candidates, substituted components, faults), each under one imposed enumeration order; non-trivial = at least two universe components and at least one injection point; distinct = distinct scenario lines',
     trusted_base=GRAPH_TB,
     assumptions=['callbacks that fetch components from the factory themselves are not modelled', 'each scenario runs under ONE imposed enumeration order here; C10 varies the order'],
 )
